@@ -218,7 +218,9 @@ PROP = {
                         "C03_style_resolution", "C03_style_cell", "C03_style_cell_unstyled", "C03_style_components",
                         "C03_style_alignment_own_record", "C03_style_alignment_from_cell_style_unfixed_fails",
                         "C03_merges", "C03_defined_names", "C03_defined_name_areas", "C03_names_home", "C03_sheet_paths", "C03_sheet_part",
-                        "C03_table_columns", "C03_book_sheet", "C03_book"],
+                        "C03_table_columns", "C03_book_sheet", "C03_book",
+                        "C03_merge_ref_grammar", "C03_merges_canonical", "C03_defined_names_any_spelling", "C03_canon_text_meaning",
+                        "C03_canon_text_library_spelling"],
     "rule": "case = one xlsx file: `c03 reset file <corpus file>`, `c03 reset gen <seed>` (grammar derivation from the seed; productions listed at the top of harness/src/c03.rs and "
             "counted as prod.* in the distribution: cell encodings t=absent/n/s/str/inlineStr/b/e with and without formula, number forms, shared/inline strings plain/rich/phonetic/"
             "xml:space/looks-typed, entities and character references in text and attributes, shared-formula blocks with the master anywhere in its ref and children right/below/"
@@ -245,7 +247,8 @@ PROP = {
                     "C03_hyperlink_location_with_rid_fails, edge 13 - ; a link without r:id has location) and RelsAgree (from C03_rels: every Relationship carries Id, Type, Target); "
                     "C03_sheet_list: name, sheetId, r:id present; C03_defined_names_partial: localSheetId fits u32, content without blanks at its ends (trim_text)",
                     "C03_merges, hypothesis MergeRefOk per ref (explicit; decidable sufficient test mergeRefOkB, sound by mergeRefOkB_sound; the driver prints per file how many refs pass, informational): the text is Range.print of a range of one of the four shapes with columns <= ZZZ and rows < 2^32 "
-                    "(outside: lower-case references - the range stays empty -, leading zeros in the row, more than one colon - panic)",
+                    "(outside: lower-case references - the range stays empty -, leading zeros in the row, more than one colon - panic); MergeRefOk is exactly the explicit decidable grammar canonRangeB of the text "
+                    "(C03_merge_ref_grammar, from C17_range_bijection; C03_merges_canonical states C03_merges with it; the driver prints merges-canon per file)",
                     "C03_defined_names, hypotheses validDefinedName and NameTextOk (decidable sufficient test nameTextOkB, sound): the text is not a plain list of cell areas (kept verbatim), or a list of areas in the spelling get_address_ptn2 prints "
                     "(sheet name in apostrophes unless made of digits / lower-case letters only)",
                     "C03_names_home: every localSheetId inside the sheet list (else the library panics and the decoder reports the file as outside the domain). HOME in the tie: the harness dumps for every name the list it is found in (w = Spreadsheet::get_defined_names(), k = get_sheet(k).get_defined_names()); "
@@ -271,7 +274,7 @@ PROP = {
     "partial_clauses": ["whole-file agreement: C03_book composes the per-part theorems into one statement about a package for the modelled skeleton (sheet list with path resolution, cells, style facts, merges, hyperlinks, defined names with homes); what stays per file: zip access and XML parsing (lookupOf), "
                         "the fixed part names the library opens vs the relationships (workbook, sharedStrings, styles), the name of a sheet's relationships part (relsPartOf vs relsNameOf, an equation of look-ups in the hypothesis), cells.set_fast (last write wins; C03_book compares cells in document order), "
                         "the tree abstraction (tag forms, comments, CDATA: `unmodelled`), and everything outside the skeleton (columns, rows, tables inside the book statement, active tab, charts, drawings, comments, conditional formats, data validations); no kernel-checked instance of ALL hypotheses of C03_book at once (Node / Rel have no decidable equality): each hypothesis has its own example, examplePkg is evaluated, edge 14 replays the shape",
-                        "C03_defined_names does not cover an area list in another spelling of the same references (Sheet1!$A$1 as Excel writes it: the library prints 'Sheet1'!$A$1 because its quoting test index_from_coordinate(name) != None is an unanchored pattern); compared per file with every plain qualifier quoted on both sides (quote_qualifiers / canonName); needs the text-to-range direction of the range codec (C17 proves print-then-parse only)",
+                        "defined names in another spelling than the library prints (Sheet1!$A$1 as Excel writes it): now C03_defined_names_any_spelling - hypothesis nameTextAnyB (decidable, Model/CoordCanon.lean; the driver prints names-any-ok per file): not an area list, or a list of qualifier!cell / qualifier!cell:cell with the qualifier unquoted (a legal name without ' ( ) \" ,) or in apostrophes with doubled apostrophes, cells in canonical spelling. The statement is reader text = canonText(decoder text), NOT equality of texts: the library re-quotes every qualifier by its own rule (C17_quote_rule), so the file text Sheet1!$A$1 is shown as 'Sheet1'!$A$1 (confirmed on the implementation); canonText keeps the areas and is idempotent (C03_canon_text_meaning), and is the identity on NameTextOk texts (C03_canon_text_library_spelling). C03_book still takes NameTextOk. In the per-file view both sides are compared with every plain qualifier quoted (quote_qualifiers / canonName, below the abstraction: that canonicaliser is the harness's, not canonText). Still outside: rows with leading zeros (Sheet1!$A$01: read, printed without the zero), unqualified areas ($A$1), unquoted qualifiers containing ' ( ) \" , ",
                         "model note: reader/xlsx.rs lets the LAST workbook relationship with the sheet's r:id win (the loop overwrites the raw data), the model sheetPart takes the FIRST (find?); equal for unique Ids (OPC requires them; the decoder reports duplicates as outside the domain); not changed here",
                         "tables: C03_table_columns is about one table part; how the library finds table parts (every sheet relationship of type table) vs the decoder (tableParts / r:id) is not modelled; tables stay per file in the decode view",
                         "C03_sheet holds for every translator T and is instantiated with the spec's and with the code's; that the two translators print the same TEXT for a master formula is NOT proved (false in general: "
